@@ -80,7 +80,9 @@ static string probes(Pool *pool, int i) {
   const DmxBuffer &b = *pool->at(i);
   unsigned int z = b.Size();
   unsigned int zm1 = z ? z - 1 : 0;
-  string out = vh::str(i) + "/" + fnv(b.ToString()) + "/";
+  std::ostringstream os;
+  os << b;                                   // operator<< is documented as ToString()
+  string out = vh::str(i) + "/" + (os.str() == b.ToString() ? fnv(b.ToString()) : string("OSTREAM!")) + "/";
   unsigned int chs[] = {0, zm1, z, 511, 512, 4294967295u};
   for (int k = 0; k < 6; k++) out += (k ? "," : "") + vh::str(static_cast<int>(b.Get(chs[k])));
   out += "/";
@@ -125,8 +127,8 @@ static string handle(const string &payload_in) {
     vector<string> f = vh::split(toks[ti], ',');
     const string &name = f[0];
     int i = static_cast<int>(vh::num(f[1]));
-    int j = (name == "cpy" || name == "asg" || name == "setb" || name == "htp") ?
-            static_cast<int>(vh::num(f[2])) : 0;
+    int j = (name == "cpy" || name == "asg" || name == "setb" || name == "htp" || name == "setraw") ?
+            static_cast<int>(vh::num(f[2])) : (name == "srraw" ? static_cast<int>(vh::num(f[3])) : 0);
     string ret = "skip";
     // arguments are prepared before, and released after, the two heap measurements
     Ptr *ptr = NULL;
@@ -134,10 +136,7 @@ static string handle(const string &payload_in) {
     if (name == "newd" || name == "setp") ptr = new Ptr(f[2]);
     if (name == "sr") ptr = new Ptr(f[3]);
     if (name == "sets") { vector<uint8_t> v = vh::unhex(f[2]); sarg.assign(v.begin(), v.end()); }
-    if (name == "sfs") {
-      vector<uint8_t> v = vh::unhex(f[2]);
-      for (size_t q = 0; q < v.size(); q++) { if (q) sarg += ","; sarg += vh::str(static_cast<int>(v[q])); }
-    }
+    if (name == "sft" || name == "news") { vector<uint8_t> v = vh::unhex(f[2]); sarg.assign(v.begin(), v.end()); }
     ret.reserve(8);
     size_t before = __sanitizer_get_current_allocated_bytes();
     bool li = pool->live[i], lj = pool->live[j];
@@ -151,7 +150,18 @@ static string handle(const string &payload_in) {
     else if (name == "setb") { if (li && lj) rv = bi->Set(*bj); }
     else if (name == "setp") { if (li) rv = bi->Set(ptr->p, vh::num(f[3])); }
     else if (name == "sets") { if (li) rv = bi->Set(sarg); }
-    else if (name == "sfs") { if (li) rv = bi->SetFromString(sarg); }
+    else if (name == "sft") { if (li) rv = bi->SetFromString(sarg); }
+    else if (name == "news") { if (!li) { new (bi) DmxBuffer(sarg); pool->live[i] = true; rv = 2; } }
+    // a pointer into ANOTHER live buffer's storage; contract: different object, k + n <= Size()
+    else if (name == "setraw") {
+      unsigned long long k = vh::num(f[3]), n = vh::num(f[4]);
+      if (li && lj && i != j && k + n <= bj->Size())
+        rv = bi->Set(bj->GetRaw() ? bj->GetRaw() + k : NULL, n);
+    } else if (name == "srraw") {
+      unsigned long long k = vh::num(f[4]), n = vh::num(f[5]);
+      if (li && lj && i != j && k + n <= bj->Size())
+        rv = bi->SetRange(vh::num(f[2]), bj->GetRaw() ? bj->GetRaw() + k : NULL, n);
+    }
     else if (name == "srv") { if (li) rv = bi->SetRangeToValue(vh::num(f[2]), vh::num(f[3]), vh::num(f[4])); }
     else if (name == "sr") { if (li) rv = bi->SetRange(vh::num(f[2]), ptr->p, vh::num(f[4])); }
     else if (name == "sc") { if (li) { bi->SetChannel(vh::num(f[2]), vh::num(f[3])); rv = 2; } }
@@ -191,6 +201,7 @@ static string handle(const string &payload_in) {
       if (!pool->live[s]) { out += "-"; continue; }
       const DmxBuffer *b = pool->at(s);
       if ((b->m_data == NULL) != (b->m_ref_count == NULL)) { out += "HALFNULL"; continue; }
+      if (b->GetRaw() != b->m_data) { out += "GETRAW!"; continue; }
       string cls = "n";
       if (b->m_data) {
         for (int t = 0; t < NSLOTS; t++)
